@@ -30,6 +30,11 @@ Families
                     default dtype, training flag) and three differential oracles (fresh hedger on the live
                     instruments; fresh hedger in the world of the data-changing operations only; the latter
                     under the other torch default dtype).
+  shared_feature_objects  one feature object (PrevHedge instance, FeatureList / ModuleOutput / nested ModuleOutput with a
+                    prev_hedge inside) in the inputs of two hedgers, used by them in every sequence of (hedger,
+                    derivative, hedge|pl|loss) up to length 2|3; every chain F.of(d,h).of(d',h')... up to length 2|3
+                    (h = none | A | B); the last use / the finally bound object == the same in a fresh world with a
+                    fresh feature object, bitwise.
 """
 from __future__ import annotations
 
@@ -1210,6 +1215,229 @@ def histories(ctx, block):
 
 
 # ----------------------------------------------------------------------------
+# family 4: one feature OBJECT shared by two hedgers / re-bound through of() several times
+# ----------------------------------------------------------------------------
+# "... not on which derivatives, path counts or dtypes the same hedger or FEATURES were used with before":
+# a feature object (PrevHedge instance, FeatureList or ModuleOutput holding a state-dependent inner feature, nested
+# ModuleOutput) is put into the inputs of two hedgers A and B (different model weights, so their prev_output differ)
+# and the hedgers use it one after the other on three derivatives (the world of the histories: path counts, dtypes,
+# lengths differ; one derivative hedged with a listed option); the LAST use of every sequence is compared, bitwise,
+# with the same use in a fresh world (fresh instruments with the same scripted series, fresh feature object and
+# fresh hedger from the same factories).  The same for the bare feature API: F.of(d1, h1).of(d2, h2)... (h = None | A
+# | B) and then get(t) / is_state_dependent() against a fresh feature object bound once.
+
+SHARED_KINDS = ("prev_instance", "flist_prev", "modout_prev", "modout_flist", "modout_nested")
+SHARED_OPS = ("hedge", "pl", "loss")
+SHARED_PATHS = ((2, 3, 2), (3, 2, 2))        # derivatives 0 and 2 (same dtype, same length): same | different path counts
+
+
+def _shared_feature(kind, seed):
+    """-> (feature object, number of columns, modules to cast along with the hedger)."""
+    from pfhedge.features import FeatureList, ModuleOutput, PrevHedge
+    f32 = torch.float32
+    if kind == "prev_instance":
+        return PrevHedge(), 1, []
+    if kind == "flist_prev":
+        return FeatureList(["log_moneyness", PrevHedge()]), 2, []
+    if kind == "modout_prev":
+        mo = ModuleOutput(W.generic_linear(2, 1, seed, f32, tag=21), ["log_moneyness", "prev_hedge"])
+        return mo, 1, [mo]
+    if kind == "modout_flist":
+        mo = ModuleOutput(W.generic_linear(3, 1, seed, f32, tag=22), [FeatureList(["moneyness", PrevHedge()]), "time_to_maturity"])
+        return mo, 1, [mo]
+    if kind == "modout_nested":
+        inner = ModuleOutput(W.generic_linear(2, 1, seed, f32, tag=23), ["prev_hedge", "moneyness"])
+        outer = ModuleOutput(W.generic_linear(2, 1, seed, f32, tag=24), [inner, "time_to_maturity"])
+        return outer, 1, [outer, inner]
+    raise KeyError(kind)
+
+
+class _SharedWorld:
+    """Three simulated derivatives (the world of the histories), one feature object, two hedgers holding it."""
+
+    def __init__(self, kind, seed, paths):
+        self.w = W.build("prev", seed, [("sim", i, n) for i, n in enumerate(paths)])
+        self.paths = paths
+        self.feature, ncol, self.mods = _shared_feature(kind, seed)
+        self.ncol = ncol
+        self._hedgers = self._plain = None
+
+    @property
+    def hedgers(self):
+        from pfhedge.nn import ExpectedShortfall, Hedger
+        if self._hedgers is None:
+            self._hedgers = [Hedger(W.generic_linear(1 + self.ncol, 1, self.w.seed, torch.float32, tag=30 + h),
+                                    ["time_to_maturity", self.feature], criterion=ExpectedShortfall(0.5)) for h in (0, 1)]
+        return self._hedgers
+
+    @property
+    def plain(self):
+        # hedgers of the bare-API part: ordinary string inputs (their prev_output is what a bound prev_hedge reads)
+        from pfhedge.nn import ExpectedShortfall, Hedger
+        if self._plain is None:
+            self._plain = [Hedger(W.generic_linear(2, 1, self.w.seed, torch.float32, tag=40 + h), ["moneyness", "prev_hedge"],
+                                  criterion=ExpectedShortfall(0.5)) for h in (0, 1)]
+        return self._plain
+
+    def cast(self, i, hedger):
+        dt = self.w.prims[i].dtype
+        hedger.to(dt)
+        for m in self.mods:          # a ModuleOutput is not in the hedger's module tree: harness obligation
+            m.to(dt)
+
+    def use(self, h, i, op):
+        from mc.core.runner import blame
+        H, d, hedge = self.hedgers[h], self.w.derivs[i], self.w.hedges[i]
+        self.cast(i, H)
+        g0 = torch.is_grad_enabled()
+        try:
+            if op == "hedge":
+                with torch.no_grad():
+                    return H.compute_hedge(d, hedge=hedge)
+            if op == "pl":
+                with torch.no_grad():
+                    return H.compute_pl(d, hedge=hedge)
+            loss = H.compute_loss(d, hedge=hedge, n_paths=self.paths[i])
+            params = list(H.parameters()) + [q for m in self.mods for q in m.module.parameters()]
+            grads = torch.autograd.grad(loss, params, allow_unused=True)
+            return {"loss": loss.detach(), "grad": [None if g is None else g.detach() for g in grads]}
+        except Exception as e:
+            if blame(e) is None and not isinstance(e, RuntimeError):
+                raise
+            return W.Raised(f"{type(e).__name__}: {str(e)[:160]}")
+        finally:
+            torch.set_grad_enabled(g0)
+
+    def bind(self, chain, steps):
+        """F.of(d_i1, h1).of(d_i2, h2)...; then is_state_dependent() and get(t) for t in steps."""
+        from mc.core.runner import blame
+        last_of = {}
+        for h, i in chain:
+            if h is not None:
+                last_of[h] = i
+        for h, i in last_of.items():         # gives each hedger a prev_output with the path count of its last binding
+            self.plain[h].to(self.w.prims[i].dtype)
+            with torch.no_grad():
+                self.plain[h].compute_hedge(self.w.derivs[i], hedge=self.w.hedges[i])
+        f = self.feature
+        out = {}
+        try:
+            for h, i in chain:
+                f = f.of(self.w.derivs[i], None if h is None else self.plain[h])
+            out["state_dependent"] = bool(f.is_state_dependent())
+        except Exception as e:
+            if blame(e) is None:
+                raise
+            return {"of": W.Raised(f"{type(e).__name__}: {str(e)[:120]}")}
+        for m in self.mods:
+            m.to(self.w.prims[chain[-1][1]].dtype)
+        for t in steps:
+            try:
+                with torch.no_grad():
+                    out[f"get({t})"] = f.get(t)
+            except Exception as e:            # e.g. prev_hedge without a hedger: the type of the exception is the outcome
+                if blame(e) is None and not isinstance(e, (AttributeError, RuntimeError)):
+                    raise
+                out[f"get({t})"] = W.Raised(type(e).__name__)
+        return out
+
+
+def _fmt_uses(uses):
+    return "[" + ", ".join(f"hedger {'AB'[h]}.{op}(derivative #{i})" for h, i, op in uses) + "]"
+
+
+def _fmt_chain(chain):
+    return "F" + "".join(f".of(d{i}{'' if h is None else ', ' + 'AB'[h]})" for h, i in chain)
+
+
+@family
+def shared_feature_objects(ctx, block):
+    kind, seed = block["kind"], ctx.seed % 5
+    paths = tuple(block["paths"])
+    memo = {}
+    if "uses" in block:
+        use_seqs = [[tuple(u) for u in block["uses"]]]
+    elif "chain" in block:
+        use_seqs = []
+    else:
+        singles = [(h, i, op) for h in (0, 1) for i in range(len(W.DERIVS)) for op in SHARED_OPS]
+        earlier = [u for u in singles if u[2] in block["earlier_ops"]]
+        use_seqs = [[u] for u in singles]
+        front = [[u] for u in earlier]
+        for _ in range(block["length"] - 1):
+            use_seqs += [f + [u] for f in front for u in singles]
+            front = [f + [u] for f in front for u in earlier]
+    for uses in use_seqs:
+        sw = _SharedWorld(kind, seed, paths)
+        got = None
+        for u in uses:
+            got = sw.use(*u)
+        last = uses[-1]
+        if last not in memo:
+            memo[last] = _SharedWorld(kind, seed, paths).use(*last)
+            ctx.add("reference_worlds_built", 1)
+        want = memo[last]
+        users = {h for h, _, _ in uses}
+        ctx.tick(1, nontrivial=1 if (len(users) > 1 and W.depends_on_data(got)) else 0)
+        ctx.add("differential_comparisons", 1)
+        if not W.same_result(got, want):
+            rt = W.raised_type(got)
+            other = any(h != last[0] for h, _, _ in uses[:-1])
+            cls = ("shared_feature:" + ("raises:" + rt if rt else "history_dependent")
+                   + (":used_by_other_hedger_before" if other else ":used_by_same_hedger_before"))
+            ctx.violation(W.ENTRY[last[2]], cls,
+                          f"feature object '{kind}' in the inputs of two hedgers A, B; after {_fmt_uses(uses[:-1])} the result "
+                          f"of {_fmt_uses([last])} differs from the same in a fresh world (fresh feature object, fresh "
+                          f"hedger, same parameters, same series; path counts {list(paths)})",
+                          observed=W.describe(got), expected=W.describe(want),
+                          block={"kind": kind, "paths": list(paths), "uses": [list(u) for u in uses]})
+        elif isinstance(got, torch.Tensor):
+            ctx.outcome(("shared", kind, last[2], round(float(got.detach().to(torch.float64).sum()), 9)))
+    # -- bare feature API: chains of of() -----------------------------------------------------------------------------
+    if "uses" in block:
+        return
+    if "chain" in block:
+        chains = [[tuple(b) for b in block["chain"]]]
+    else:
+        binds = [(h, i) for h in (None, 0, 1) for i in range(len(W.DERIVS))]
+        chains, front = [], [[b] for b in binds]
+        for _ in range(block["chain_length"] - 1):
+            front = [f + [b] for f in front for b in binds]
+            chains += front
+    steps = (0, 1)
+    for chain in chains:
+        got = _SharedWorld(kind, seed, paths).bind(chain, steps)
+        # reference: a fresh feature object bound once in a fresh world (bind() prepares the state of the hedger it binds
+        # with exactly as above: compute_hedge on the derivative of its last binding) - a function of the last binding
+        if chain[-1] not in memo:
+            memo[chain[-1]] = _SharedWorld(kind, seed, paths).bind(chain[-1:], steps)
+            ctx.add("reference_worlds_built", 1)
+        want = memo[chain[-1]]
+        hs = [h for h, _ in chain]
+        ctx.tick(1, nontrivial=1 if (len(set(hs)) > 1 and W.depends_on_data([v for v in got.values() if not isinstance(v, (str, bool))])) else 0)
+        ctx.add("differential_comparisons", 1)
+        for key in want:
+            g, x = got.get(key), want[key]
+            same = (W.raised_type(g) == W.raised_type(x)) if (W.raised_type(g) or W.raised_type(x)) else W.same_result(g, x)
+            if not same:
+                prev_h = [h for h in hs[:-1] if h is not None]
+                cls = ("rebinding:" + key.split("(")[0] + ":"
+                       + ("to_no_hedger_after_hedger" if hs[-1] is None else
+                          "to_other_hedger" if any(h != hs[-1] for h in prev_h) else
+                          "to_same_hedger" if prev_h else "after_no_hedger"))
+                ctx.violation("Feature.of", cls,
+                              f"{_fmt_chain(chain)}.{key} differs from a fresh '{kind}' feature object bound once, "
+                              f"{_fmt_chain(chain[-1:])}.{key} (path counts {list(paths)}; A, B: hedgers after compute_hedge on the "
+                              f"derivative they are bound with)",
+                              observed=W.describe(g), expected=W.describe(x),
+                              block={"kind": kind, "paths": list(paths), "chain": [list(b) for b in chain]})
+                break
+    if "chain" not in block and len(ctx.samples) < 8:
+        ctx.sample({"family": "shared_feature_objects", "kind": kind, "paths": list(paths), "use_sequences": len(use_seqs),
+                    "of_chains": len(chains), "a_use_sequence": _fmt_uses(use_seqs[-1]), "a_chain": _fmt_chain(chains[-1])})
+
+
+# ----------------------------------------------------------------------------
 
 def run(ctx):
     ctx.rule("call matrix: every (call, world) pair - calls = the public computations listed in the module docstring, "
@@ -1225,7 +1453,10 @@ def run(ctx):
              "features were asked for; names of all attributes stored on hedger, model, derivatives, underliers); every transition is executed on real objects "
              "and checked (frame rule incl. autograd state, parameter frame, hedger/copy separation, ambient grad mode / default "
              "dtype / training flag, three fresh-hedger differentials incl. the other torch default dtype); non-trivial = query "
-             "transitions with a data-dependent result")
+             "transitions with a data-dependent result. shared feature objects: every sequence of uses (hedger A|B, derivative, "
+             "compute_hedge|compute_pl|compute_loss) up to the length, of two hedgers holding the same feature object, and every "
+             "chain of of(derivative, none|A|B) up to the length on the bare feature object; the last use / binding is compared bitwise "
+             "with a fresh world; non-trivial = both hedgers (two different bindings) occur and the result carries data")
     ctx.assume("abstract states merged by canon() have the same futures w.r.t. the property: control flow of pfhedge "
                "does not branch on series or parameter values, and both differential oracles copy the live values")
     ctx.assume("the autograd state (requires_grad, is_leaf, grad_fn) of every instrument series and of every caller tensor is "
@@ -1283,6 +1514,21 @@ def run(ctx):
             ctx.run("histories", b)
     else:
         ctx.run_parallel("histories", hblocks, workers=workers)
+    # -- one feature object shared by two hedgers / re-bound several times ----------------------------------------------
+    # quick: path counts (2,3,2), two uses (the earlier one a compute_hedge), chains of two bindings; thorough: three uses (the
+    # earlier ones hedge|loss - compute_pl is compute_hedge plus arithmetic on its result), chains of three bindings, and the
+    # second path configuration with two uses (all operations) and chains of two bindings
+    sblocks = [{"kind": kind, "paths": list(SHARED_PATHS[0]), "length": ctx.pick(2, 3),
+                "earlier_ops": ctx.pick(["hedge"], ["hedge", "loss"]), "chain_length": ctx.pick(2, 3)} for kind in SHARED_KINDS]
+    if ctx.thorough:
+        sblocks += [{"kind": kind, "paths": list(SHARED_PATHS[1]), "length": 2, "earlier_ops": list(SHARED_OPS), "chain_length": 2}
+                    for kind in SHARED_KINDS]
+    ctx.alphabet("shared feature objects", list(SHARED_KINDS))
+    if ctx.quick:
+        for b in sblocks:
+            ctx.run("shared_feature_objects", b)
+    else:
+        ctx.run_parallel("shared_feature_objects", sblocks, workers=workers)
 
 
 def _oce():
